@@ -69,7 +69,7 @@ def _run(q):
     return q
 
 
-DEFAULT_WORKERS = 14
+DEFAULT_WORKERS = int(os.environ.get("VERIF_WORKERS", "14"))
 
 
 def run_queries(qs, workers=None, deadline=None):
